@@ -421,13 +421,14 @@ pub fn run(tier: Tier, seed: u64) -> i32 {
         });
         total.merge(st);
     }
+    total.merge(crate::props::c13::api_use_part(&deadline));
     let meta = CheckMeta {
         id: "C05",
         tier,
         seed,
         rule: "every combination of per-column entries {0,1,X,C,Z,(k)} / {5,X,C,(k+1),Z} / expected {X,Z,2,(k)} (and bits(2,k) over adjacent columns), in each of 4 program forms, for each configuration; mixed-radix index decoded injectively; plus every ordered sequence of 2 (thorough: 3) rows over a reduced menu with two clock columns; a case is non-trivial if a row holds X or C in an input column".into(),
         assumptions: vec!["reference expansion in refsem.rs::do_row is the oracle".into(), "loop bounds are >= 1 here (bounds <= 0 are C01's)".into()],
-        required_witnesses: vec!["ten_x_inputs_and_a_clock", "x_expansion", "c_expansion", "x_and_c_composed", "bits_row", "depth 0", "loop depth 1", "loop depth 2", "repeat row", "variables named C X Z c x z", "loop counter named X", "history_of_rows", "history_with_a_driver_fault_then_carried_on", "row_reading_the_device_while_it_is_expanded"],
+        required_witnesses: vec!["ten_x_inputs_and_a_clock", "x_expansion", "c_expansion", "x_and_c_composed", "bits_row", "depth 0", "loop depth 1", "loop depth 2", "repeat row", "variables named C X Z c x z", "loop counter named X", "history_of_rows", "history_with_a_driver_fault_then_carried_on", "row_reading_the_device_while_it_is_expanded", "iterator_advanced_with_nth"],
         exhaustive_note: "all row shapes over the stated menus for every configuration and program form".into(),
         e1: false,
     };
